@@ -164,7 +164,9 @@ add("C16", "Server.tla models handlers and background tasks with one action per 
     "definitional answers and compares models and graphs (GraphOK: reachable node set, root labels, lo/hi walk = acceptance condition under the shown model), "
     "for both parsings and all six strategies; unparseable and panicking code must end as Error, solving it be refused, no ended task be reported running, and "
     "a task be shown as running only to the person who started it for that problem (slow-task scenario with two users owning same-named problems). Footprint "
-    "conformance: each request's database commands are compared with ServerShapes!HandlerCommands (commands, collections, filter keys; drift only).",
+    "conformance: each request's database commands are compared with ServerShapes!HandlerCommands (commands, collections, filter keys; drift only). "
+    "Action-level conformance (Trace_ServerModel, drift only): every scenario must be a behaviour of Server.tla's own Start / Step / TaskStep actions with the "
+    "recorded statuses, and at observed quiescence the model's documents and accounts must equal the database snapshot (TLC infers task timing; 32 of 32 scenarios explained).",
     SERVER_NOTE, "TLA+ model of the service at database-command granularity model-checked with cause-classified invariants; TLC trace validation of real "
     "HTTP/database observations against definitional semantics; race replay through a scheduling database stub", "6/C16")
 add("C17", "Same model with ghost ownership (accounts and documents remember the person who created them): within the bound every foreign read or effect is "
